@@ -383,28 +383,28 @@ func init() {
 								ok = false
 							}
 						}
-						step(wop{K: "alloc", V: 0, A: S, B: S})           // v0: a, full
+						step(wop{K: "alloc", V: 0, A: S, B: S}) // v0: a, full
 						step(wop{K: "stamp", V: 0})
-						step(wop{K: "slice", V: 0, A: 0, B: S / 2})       // v1: first half of a
-						step(wop{K: "slice", V: 0, A: S - S/10, B: S})    // v2: short window at the tail of a
-						step(wop{K: "set", V: 0, A: C*S - 1})             // write through the parent inside v2
-						step(wop{K: "set", V: 2, A: 0})                   // and through the window
-						step(wop{K: "alloc", V: 3, A: 1, B: 1})           // v3: one frame
+						step(wop{K: "slice", V: 0, A: 0, B: S / 2})    // v1: first half of a
+						step(wop{K: "slice", V: 0, A: S - S/10, B: S}) // v2: short window at the tail of a
+						step(wop{K: "set", V: 0, A: C*S - 1})          // write through the parent inside v2
+						step(wop{K: "set", V: 2, A: 0})                // and through the window
+						step(wop{K: "alloc", V: 3, A: 1, B: 1})        // v3: one frame
 						step(wop{K: "stamp", V: 3})
-						step(wop{K: "append", V: 0, W: 3})                // a grows; v1, v2 stay on the old storage
+						step(wop{K: "append", V: 0, W: 3}) // a grows; v1, v2 stay on the old storage
 						step(wop{K: "stamp", V: 1})
-						step(wop{K: "alloc", V: 4, A: S / 2, B: S / 2})   // v4: b
+						step(wop{K: "alloc", V: 4, A: S / 2, B: S / 2}) // v4: b
 						step(wop{K: "stamp", V: 4})
-						step(wop{K: "append", V: 4, W: 1})                // b grows to S frames
+						step(wop{K: "append", V: 4, W: 1}) // b grows to S frames
 						step(wop{K: "stamp", V: 4})
 						step(wop{K: "stamp", V: 1})
 						step(wop{K: "stamp", V: 0})
-						step(wop{K: "alloc", V: 5, A: S / 4, B: S / 4})   // v5: c
-						step(wop{K: "append", V: 5, W: 5})                // self-append, grows
+						step(wop{K: "alloc", V: 5, A: S / 4, B: S / 4}) // v5: c
+						step(wop{K: "append", V: 5, W: 5})              // self-append, grows
 						step(wop{K: "append", V: 5, W: 1})
 						step(wop{K: "stamp", V: 5})
 						step(wop{K: "stamp", V: 2})
-						step(wop{K: "slice", V: 4, A: S - 3, B: S})       // tail window of the grown b
+						step(wop{K: "slice", V: 4, A: S - 3, B: S}) // tail window of the grown b
 						step(wop{K: "stamp", V: 6})
 						step(wop{K: "set", V: 4, A: C*S - 2})
 					}
